@@ -366,26 +366,34 @@ def run_check(prop, root, evdir):
     return p.returncode, viol, head, p.stdout[-400:] if p.returncode == 2 else ""
 
 
+JOBS = int(os.environ.get("VERIF_JOBS", "12"))
+
+
+def _pmap(fn, items):
+    from concurrent.futures import ThreadPoolExecutor
+    with ThreadPoolExecutor(max(1, JOBS)) as ex:
+        return list(ex.map(fn, items))
+
+
 def silent_corpus(prop, repo_root):
-    res = []
-    for name in VARIANTS:
+    def one(name):
         tmp = tempfile.mkdtemp(prefix="sa_silent_%s_" % name)
         try:
             make_variant(name, repo_root, tmp)
             rc, viol, head, err = run_check(prop, tmp, os.path.join(tmp, "ev"))
-            res.append({"variant": name, "rc": rc, "violations": viol[:3], "summary": head[:160], "error": err})
+            return {"variant": name, "rc": rc, "violations": viol[:3], "summary": head[:160], "error": err}
         except Exception as e:      # a rewrite that does not apply to this tree
-            res.append({"variant": name, "rc": None, "error": "variant not applicable: %s" % e})
+            return {"variant": name, "rc": None, "error": "variant not applicable: %s" % e}
         finally:
             shutil.rmtree(tmp, ignore_errors=True)
-    return res
+    return _pmap(one, list(VARIANTS))
 
 
 def fire_corpus(prop, repo_root):
-    res = []
     sd = os.path.join(VERIF, "seeded")
     if not os.path.isdir(sd):
-        return res
+        return []
+    todo = []
     for sid in sorted(os.listdir(sd)):
         d = os.path.join(sd, sid)
         meta = os.path.join(d, "meta.json")
@@ -397,22 +405,22 @@ def fire_corpus(prop, repo_root):
             continue
         if prop not in (m.get("caught_by") or [m.get("property")]):
             continue
+        todo.append((sid, d))
+
+    def one(item):
+        sid, d = item
         tmp = tempfile.mkdtemp(prefix="sa_fire_%s_" % sid)
         try:
             shutil.copytree(os.path.join(repo_root, "npstructures"), os.path.join(tmp, "npstructures"), ignore=shutil.ignore_patterns("__pycache__"))
             p = subprocess.run(["patch", "-p1", "-s", "-i", os.path.join(d, "patch.diff")], cwd=tmp, capture_output=True, text=True)
             if p.returncode != 0:
-                res.append({"seeded": sid, "status": "stale (patch does not apply to the current tree)"})
-                continue
+                return {"seeded": sid, "status": "stale (patch does not apply to the current tree)"}
             rc, viol, head, err = run_check(prop, tmp, os.path.join(tmp, "ev"))
-            res.append({"seeded": sid, "status": "detected" if rc == 1 else ("analysis-error" if rc == 2 else "MISSED"), "violations": viol[:2], "error": err})
+            return {"seeded": sid, "status": "detected" if rc == 1 else ("analysis-error" if rc == 2 else "MISSED"), "violations": viol[:2], "error": err}
         finally:
             shutil.rmtree(tmp, ignore_errors=True)
-    return res
+    return _pmap(one, todo)
 
-
-# ---------------------------------------------------------------------------
-# knowledge-base audit (numpy only)
 
 def kb_audit():
     import numpy as np
@@ -491,26 +499,24 @@ def kb_audit():
 
 def equivalent_corpus(prop, repo_root):
     """committed behaviour-preserving patches (/verif/equivalent): every check must stay silent on them"""
-    res = []
     ed = os.path.join(VERIF, "equivalent")
     if not os.path.isdir(ed):
-        return res
-    for sid in sorted(os.listdir(ed)):
+        return []
+    todo = [sid for sid in sorted(os.listdir(ed)) if os.path.exists(os.path.join(ed, sid, "patch.diff"))]
+
+    def one(sid):
         d = os.path.join(ed, sid)
-        if not os.path.exists(os.path.join(d, "patch.diff")):
-            continue
         tmp = tempfile.mkdtemp(prefix="sa_equiv_%s_" % sid)
         try:
             shutil.copytree(os.path.join(repo_root, "npstructures"), os.path.join(tmp, "npstructures"), ignore=shutil.ignore_patterns("__pycache__"))
             p = subprocess.run(["patch", "-p1", "-s", "-i", os.path.join(d, "patch.diff")], cwd=tmp, capture_output=True, text=True)
             if p.returncode != 0:
-                res.append({"variant": "equivalent:" + sid, "rc": None, "error": "patch does not apply to the current tree"})
-                continue
+                return {"variant": "equivalent:" + sid, "rc": None, "error": "patch does not apply to the current tree"}
             rc, viol, head, err = run_check(prop, tmp, os.path.join(tmp, "ev"))
-            res.append({"variant": "equivalent:" + sid, "rc": rc, "violations": viol[:3], "summary": head[:160], "error": err})
+            return {"variant": "equivalent:" + sid, "rc": rc, "violations": viol[:3], "summary": head[:160], "error": err}
         finally:
             shutil.rmtree(tmp, ignore_errors=True)
-    return res
+    return _pmap(one, todo)
 
 
 def run(prop, repo_root):
